@@ -49,7 +49,7 @@ def plan(tier, seed):
 def floors(tier):
     return {"distinct_nontrivial": 200, "unwind.close": 200, "unwind.exc": 50, "op:full": 500, "op:take": 100,
             "op:abandon": 100, "op:drop": 100, "op:boom_raised": 50, "op:the": 50, "cls:dup_domain": 50,
-            "cls:caching_off": 100, "cache.check.hit": 500, "cls:ruletree_history": 100, "cls:shared_expression_pool": 60, "cls:twin:nexttree": 30, "cls:twin:kwvar": 30, "cls:variable_whose_domain_has_no_instance": 60, "cls:twin:concat": 25, "cls:twin:flatsub": 25, "cls:twin:sharedconc": 25}
+            "cls:caching_off": 100, "cache.check.hit": 500, "cls:ruletree_history": 100, "cls:shared_expression_pool": 60, "cls:twin:nexttree": 30, "cls:twin:kwvar": 30, "cls:variable_whose_domain_has_no_instance": 60, "cls:twin:concat": 25, "cls:twin:flatsub": 25, "cls:twin:sharedconc": 20, "cls:twin:blockstyle": 20, "cls:twin:ix": 40}
 
 
 def cases(spec, ctx):
@@ -63,12 +63,17 @@ def cases(spec, ctx):
             for _ in range(rng.randint(2, 6)):
                 kind = rng.choice(["full", "full", "take", "abandon", "drop"])
                 ops.append([kind, 0] if kind == "full" else [kind, 0, rng.randint(1, 3)])
-            twin = rng.choice(["nexttree", "kwvar", "concat", "flatsub", "sharedconc"])
+            twin = rng.choice(["nexttree", "kwvar", "concat", "flatsub", "sharedconc", "blockstyle", "ix", "ix"])
             if twin == "kwvar":
                 # an iterator that is kept alive but never advanced again is beyond the quantifier ("take k results then
                 # close"): a keyword-constrained variable marks itself while its constraints are being evaluated and a
                 # suspended evaluation holds that mark (DESIGN 9.5) - closed and dropped iterators are in scope
                 ops = [["take"] + o[1:] if o[0] == "abandon" else o for o in ops]
+            if twin == "ix":
+                from .. import ix
+                yield {"twin": twin, "ops": ops, "caching": rng.random() < 0.65, "ix": ix.gen_case(rng), "data": [], "conds": [["a", 0], ["a", 0]],
+                       "links": []}
+                continue
             yield {"twin": twin, "ops": ops, "caching": rng.random() < 0.65,
                    "data": [[rng.randint(1, 4) for _ in range(3)] for _ in range(rng.randint(3, 6))],
                    "conds": [[rng.choice("abc"), rng.randint(0, 3)], [rng.choice("abc"), rng.randint(0, 3)]],
@@ -335,6 +340,22 @@ def check_ruletree_case(case, ctx):
     ctx.sample({"ruletree": case["ruletree"], "ops": case["ops"], "history_log": log})
 
 
+from dataclasses import dataclass as _dataclass
+from typing import Any as _Any
+from entity_query_language import Predicate as _Predicate
+
+
+@_dataclass(eq=False)
+class NGt(_Predicate):
+    """Predicate term over a c12.N object: its first argument is bound implicitly inside the block of a query"""
+    x: _Any
+    attr: _Any
+    k: _Any
+
+    def __call__(self):
+        return getattr(self.x, self.attr) > self.k
+
+
 _USER_LISTS = []      # [parents, snapshot of their lists] of the twin case being run (kept out of the JSON-able case)
 
 
@@ -375,6 +396,29 @@ def _twin_builder(case):
             vals = list(r.values())
             return tuple(sorted((pidx.get(id(v), -1), eidx.get(id(v), -1)) for v in vals))
         return build, enc
+    if case["twin"] == "ix":
+        # a feature-interaction query (eqlmon/ix.py) as the subject of the history
+        from .. import ix
+        es, ps = ix.build_world(case["ix"]["world"])
+        encs = []
+
+        def build():
+            q, enc_ = ix.build(case["ix"], es, ps)
+            encs[:] = [enc_]
+            return q
+        return build, lambda r: encs[0](r)
+    if case["twin"] == "blockstyle":
+        # a query that gets predicate terms in its own block (`with an(entity(x, cond)) as q: HasType(..); CGt(k)`)
+        from entity_query_language import an, HasType
+
+        def build():
+            with symbolic_mode():
+                x = let(c12.N, objs)
+                with an(entity(x, getattr(x, a1) > t1)) as q:
+                    HasType(c12.N)
+                    NGt(a2, t2)
+            return q
+        return build, lambda o: idx.get(id(o), -1)
     if case["twin"] == "nexttree":
         def build():
             with symbolic_mode():
@@ -436,6 +480,7 @@ def check_sharedconc_case(case, ctx):
 
 
 def check_twin_case(case, ctx):
+    from collections import Counter as _Counter
     if case["twin"] == "sharedconc":
         return check_sharedconc_case(case, ctx)
     from entity_query_language.cache_data import enable_caching, disable_caching
@@ -445,6 +490,11 @@ def check_twin_case(case, ctx):
     try:
         _USER_LISTS.clear()
         build, enc = _twin_builder(case)
+        as_set = False
+        if case["twin"] == "ix":
+            from .. import ix as _ix
+            as_set = not _ix.all_selected(case["ix"])       # (then how often a row repeats is not specified, the row set is)
+        Counter = (lambda it: _Counter(set(it))) if as_set else _Counter
         want = Counter(enc(o) for o in build().evaluate())      # the answer: a fresh query evaluated once
         q = build()
         for step, op in enumerate(list(case["ops"]) + [["full", 0], ["full", 0]]):
@@ -474,7 +524,7 @@ def check_twin_case(case, ctx):
                 else:
                     del it
                     gc.collect()
-        if case["twin"] in ("kwvar", "nexttree"):
+        if case["twin"] in ("kwvar", "nexttree", "blockstyle"):
             # a query built now, after all of that, answers like the one built at the beginning
             late = Counter(enc(o) for o in build().evaluate())
             if late != want:
